@@ -91,7 +91,6 @@ Proof.
   - destruct (negb (is_long_flag t) && Nat.ltb 2 (String.length t)) eqn:S.
     2:{ intros E; inversion E; subst; simpl. apply tok_weight_pos. }
     apply andb_true_iff in S. destruct S as [_ S]. apply Nat.ltb_lt in S.
-    destruct (cur_ctx m) as [c|]; [|discriminate].
     match goal with |- (if ?b then _ else _) = _ -> _ => destruct b end;
       intros [= <- <-].
     + cbn [body_fuel]. pose proof (tok_weight_shorter (drop 2 t) t) as W.
@@ -105,8 +104,7 @@ Lemma rollback_weight m t sp sp' :
   rollback m t sp = Ok sp' -> body_fuel (snd sp') <= body_fuel (snd sp).
 Proof.
   unfold rollback. destruct (waiting m).
-  - destruct (cur_ctx m); [|discriminate].
-    match goal with |- (if ?b then _ else _) = _ -> _ => destruct b end;
+  - match goal with |- (if ?b then _ else _) = _ -> _ => destruct b end;
       intros E; inversion E; subst; simpl; lia.
   - intros E; inversion E; subst; lia.
 Qed.
